@@ -26,7 +26,7 @@ CLAIMS = {
                        'drawdown', 'tanh', 'gte', 'lte', 'min', 'max', 'sma', 'center_of_gravity', 'correlation_trend_indicator', 'vsct', 'alma', 'echo'],
                 technique='Verus: range postconditions / invariants on the real last()/update(), exact-arithmetic bounds',
                 text='Proof of the range clauses listed in the evidence (incl. CTI in [-1,1] by Cauchy-Schwarz, |Vsct| <= (N-1)/sqrt(N) by Samuelson, Min <= Sma/Alma <= Max); the PFE clause is a known finding and is covered by the bounded search only.'),
-    'C08': dict(views=ALL, technique='Verus: readiness as a function of the abstract state, silent-inner frame, preconditions of / sqrt ln discharged from the guards in the code',
+    'C08': dict(views=ALL, technique='Verus: readiness clauses (last reports a value exactly when the specification does; a silent inner view leaves the answer unchanged), preconditions of / sqrt ln discharged from the guards in the code, warm-up lemmas',
                 text='Proof that every partial operation is guarded (no NaN/inf in exact arithmetic), that readiness is monotone, and of the documented warm-up lengths.'),
     'C09': dict(views=['ema', 'laguerre_filter', 'super_smoother', 'roofing_filter', 'cyber_cycle', 'trend_flex', 're_flex', 'laguerre_rsi', 'ehlers_fisher_transform', 'echo'],
                 technique='Verus: coefficient contracts (pole locations / Jury conditions) for every window length, one-step contraction lemmas',
